@@ -9,6 +9,7 @@ HARNESSES = [
     dict(name="regions", src="props/regions.cpp", variant="plain"),
     dict(name="regions_asan", src="props/regions.cpp", variant="asan"),
     dict(name="matrix", src="props/matrix.cpp", variant="plain"),
+    dict(name="filter_asan", src="props/filter.cpp", variant="asan"),
 ]
 
 CHECKS = {}
@@ -81,4 +82,16 @@ CHECKS["C11"] = dict(
                  "1/sx may be the floor or the ceiling of the exact quotient",
                  "rotate with c or s == INT32_MIN is outside the domain (-s not representable)",
                  "invert is asserted only for exactly singular matrices with entries < 2^17 units and for well-conditioned matrices (entries <= 256.0, |det| >= 2^-8)"],
+)
+
+CHECKS["C18"] = dict(
+    level="exploration",
+    rule=("rapidcheck cases: all 8x8 (reconstruct, sample) kernel pairs per axis, scales log-uniform over 2^-16..2^6 plus exact "
+          "powers of two, 1+-ulp, simple fractions and negative values, subsample bits 0..8 per axis (capped so that a table has "
+          "<= 16384 entries); ASan build. Oracle: non-NULL, allocation >= announced length, integral header equal to the request, "
+          "n_values == 4 + w*2^bx + h*2^by, every phase sums to exactly 65536 (64-bit sum), set_filter accepts, and for kernels up "
+          "to 200 taps a constant a8r8g8b8 image stays constant under the filter. Non-trivial = width >= 2 or >= 1 phase bit on an axis."),
+    jobs=[dict(harness="filter_asan", prop="filter", cases=T(4000, 60000), procs=T(8, 16))],
+    floor=T(20000, 500000), nt_floor=T(5000, 100000),
+    assumptions=["the constant-image consequence is asserted only for kernels of <= 200 taps: the fetchers round every x*y coefficient product, so for huge kernels a drift is arithmetic of the fetcher, not of the table"],
 )
